@@ -1407,6 +1407,9 @@ def compile_pattern(compiler, pattern):
 
     elif isinstance(value, Dict):
         kvs, rest = value
+        if rest == Symbol("_"):
+            # As in Python, where `**_` is a syntax error.
+            compiler._syntax_error(rest, "`#** _` is not allowed in a mapping pattern")
         keys, values = zip(*kvs) if kvs else ([], [])
         # Call `scope.assign` for the assignment to `rest`.
         return compiler.scope.assign(
